@@ -5,5 +5,6 @@ INVARIANT Lengths
 INVARIANT Completeness
 INVARIANT Linearity
 INVARIANT HonestProofGadgetTest
+INVARIANT LagEvalRootsAgrees
 INVARIANT EmitInv
 CHECK_DEADLOCK FALSE
